@@ -609,7 +609,7 @@ class Check:
             for k in c.kernels:
                 if k.dropped:
                     self.stats["kernels_dropped_by_domain"] += 1
-                h = SymHandle(k, c, self.encode_opts)
+                h = SymHandle(k, c, getattr(k, "enc_opts", None) or self.encode_opts)
                 self.K[k.name] = h
         self.chunks += chunks
         return chunks
